@@ -60,9 +60,11 @@ NoTags == [t \in {} |-> <<>>]
                                                                                | "skipT" (leading T bases of the insert are dropped)
      both  positions deliberately recorded in a tag AND emitted (ligation motif / overhang kept in the read)
      multi positions deliberately recorded in two base tags (ligation tag inside the barcode)
-     rel   tags whose value is content dependent: only required to be taken from the reads                    *)
+     rel   tags whose value is content dependent: only required to be taken from the reads
+     dt    values of the data-type tag `dt` with which a composite strategy REPORTS that it used this branch ({} = any):
+           a molecule reported as DamID / Ambiguous must obey the DamID layout, one reported as RNA the transcriptome layout *)
 Br(wl, mates, tags, qt, ins, trim, both, multi, rel) ==
-    [wl |-> wl, mates |-> mates, tags |-> tags, qt |-> qt, ins |-> ins, trim |-> trim, both |-> both, multi |-> multi, rel |-> rel]
+    [wl |-> wl, mates |-> mates, tags |-> tags, qt |-> qt, ins |-> ins, trim |-> trim, both |-> both, multi |-> multi, rel |-> rel, dt |-> {}]
 NT == <<"none", "none">>
 
 (* contiguous UMI/barcode layouts on mate bm, random primer (length rl, 0 = none) at the START of the other mate *)
@@ -121,17 +123,17 @@ L == [
   DamID2          |-> << DAMID2 >>,
   DamID2_8bp_noCA |-> << Br("DamID2_8bp", {1, 2}, [RX |-> << <<1, 0, 3>> >>, bc |-> << <<1, 3, 11>> >>, lh |-> << <<1, 11, 13>> >>],
                             [RQ |-> "RX", lq |-> "lh"], <<11, 0>>, NT, {<<1, 11>>, <<1, 12>>}, {}, {}) >>,
-  DamAndT         |-> << [DAMID2 EXCEPT !.mates = {2}],
-                         [UB("celseq2", {2}, 1, <<0, 6>>, <<6, 14>>, 6) EXCEPT !.trim = <<"skipT", "none">>] >>,
+  DamAndT         |-> << [DAMID2 EXCEPT !.mates = {2}, !.dt = {"DamID", "Ambiguous"}],
+                         [UB("celseq2", {2}, 1, <<0, 6>>, <<6, 14>>, 6) EXCEPT !.trim = <<"skipT", "none">>, !.dt = {"RNA"}] >>,
   DamID2_3u4b3u6b |-> << SCA("DamID2_scattered_8bp", {1, 2}, 3, 4, 3, 4, NT) >>,
-  DamID2andT_3u4b3u4b |-> << SCA("DamID2_scattered_8bp", {2}, 3, 4, 3, 4, NT),
-                             SCA("CS2_scattered_8bp", {2}, 3, 4, 3, 4, <<"skipT", "none">>) >>,
+  DamID2andT_3u4b3u4b |-> << [SCA("DamID2_scattered_8bp", {2}, 3, 4, 3, 4, NT) EXCEPT !.dt = {"DamID", "Ambiguous"}],
+                             [SCA("CS2_scattered_8bp", {2}, 3, 4, 3, 4, <<"skipT", "none">>) EXCEPT !.dt = {"RNA"}] >>,
   (* third branch: the pair matches both whitelists; the code keeps the transcriptome records (emitted from 14, poly-T pruned)
      and overwrites their tags with the DamID ones (barcode 3:7+10:16, overhang 16:18), so 14..17 are tagged AND emitted *)
-  DamID2andT_3u4b3u6b |-> << SCA("DamID2_scattered_10bp", {2}, 3, 4, 3, 6, NT),
-                             SCA("CS2_scattered_8bp", {2}, 3, 4, 3, 4, <<"skipT", "none">>),
+  DamID2andT_3u4b3u6b |-> << [SCA("DamID2_scattered_10bp", {2}, 3, 4, 3, 6, NT) EXCEPT !.dt = {"DamID"}],
+                             [SCA("CS2_scattered_8bp", {2}, 3, 4, 3, 4, <<"skipT", "none">>) EXCEPT !.dt = {"RNA"}],
                              [SCA("DamID2_scattered_10bp", {2}, 3, 4, 3, 6, <<"skipT", "none">>) EXCEPT
-                                 !.ins = <<14, 0>>, !.both = {<<1, 14>>, <<1, 15>>, <<1, 16>>, <<1, 17>>}] >>
+                                 !.ins = <<14, 0>>, !.both = {<<1, 14>>, <<1, 15>>, <<1, 16>>, <<1, 17>>}, !.dt = {""}] >>
 ]
 Strategies == DOMAIN L
 
@@ -182,11 +184,14 @@ BranchVerdict(b, R, Q, out, Enc(_), Comp(_), IsT(_)) ==
        ELSE IF BadRel # {} THEN "invented_" \o (CHOOSE t \in BadRel : TRUE)
        ELSE "ok"
 
-(* a strategy accepts through one of its branches; the output must satisfy the layout of one of them *)
-StrategyVerdict(s, R, Q, out, Enc(_), Comp(_), IsT(_)) ==
-    LET V == [i \in DOMAIN L[s] |-> BranchVerdict(L[s][i], R, Q, out, Enc, Comp, IsT)] IN
-    IF \E i \in DOMAIN V : V[i] = "ok" THEN "ok"
-    ELSE IF Len(V) = 1 THEN V[1]
+(* a strategy accepts through one of its branches; the output must satisfy the layout of one of the branches that the
+   data type it reports (dt, "" when the tag is absent) admits *)
+StrategyVerdict(s, R, Q, out, dt, Enc(_), Comp(_), IsT(_)) ==
+    LET cand == { i \in DOMAIN L[s] : L[s][i].dt = {} \/ dt \in L[s][i].dt }        \* the branches the reported data type admits
+        use == IF cand = {} THEN DOMAIN L[s] ELSE cand                                \* an unknown report: any branch
+        V == [i \in DOMAIN L[s] |-> IF i \in use THEN BranchVerdict(L[s][i], R, Q, out, Enc, Comp, IsT) ELSE "-"] IN
+    IF \E i \in use : V[i] = "ok" THEN "ok"
+    ELSE IF Cardinality(use) = 1 THEN V[CHOOSE i \in use : TRUE]
     ELSE FoldLeft(LAMBDA acc, v : acc \o "/" \o v, "no_branch", V)
 
 ---------------------------------------------------------------------------------------------------
